@@ -4,12 +4,14 @@ from __future__ import annotations
 from hypothesis import strategies as st
 
 import reactivex
+from reactivex import operators as ops
 from reactivex.disposable import Disposable
+from reactivex.scheduler import CurrentThreadScheduler
 
 from vlib.core import FAIL, OK, SKIP, Check
-from vlib.lab import timelines
+from vlib.lab import BudgetExceeded, SpinGuard, timelines
 from vlib.pipes import OPS, op_names
-from vlib.values import NAMES, val
+from vlib.values import NAMES, Tagged, val
 from vlib.relsub import INF, Diverged, DProbe, OBuilder, TLab, all_inners, gw_index, live_during, release_deadline, slot_index
 
 from props.C02 import cases, cases_forced, cases_gbu, cases_inner, make_gbu, recursion_seen
@@ -22,7 +24,7 @@ RULE = (
     "free pipelines, pipelines with an Observable-producing operator, pipelines with an early-ending operator) plus a "
     "family of creation functions that run user code (on_error_resume_next over source factories, concat of defer "
     "factories, concat_with_iterable/catch_with_iterable/from_iterable over lazily pulled logged generators, for_in, "
-    "generate, using) followed by 0-2 operators. For each case a reference run records the set E of clock values at "
+    "generate, using) followed by 0-2 operators; plus the family 'trampoline' (see below). For each case a reference run records the set E of clock values at "
     "which any scheduled action ran and the number of top-level probe callbacks; then the case is re-run once per "
     "dispose point: for every t in E u {t-1, t+1} (t >= 0, up to one tick past the natural end, at most 14 instants) "
     "in three queue positions - 'first' (the dispose action is enqueued for t before anything is built, so it "
@@ -45,6 +47,17 @@ RULE = (
     "before the stack unwinds; pulls of a lazily consumed iterable ('.next' slots) are never excused. "
     "[subscribe_on] upstream of subscribe_on the documented behaviour is unsubscription by a scheduled action: there "
     "(b),(c),(e) are required by the end of the dispose instant instead of synchronously. "
+    "Family 'trampoline' ('a single thread'): trees of synchronous library sources built WITHOUT a scheduler (of, "
+    "from_iterable over a logged generator, from_callable with a logged supplier, range, return_value, empty, throw, "
+    "generate with logged callbacks, logged harness sources emitting inside subscribe, defer with a logged factory, "
+    "concat/merge/on_error_resume_next/catch of those) followed by 0-3 (quick) / 0-5 operators (scheduler-free "
+    "operators of the shared table, flat_map/concat_map/switch_map to such trees, merge/concat/on_error_resume_next/"
+    "catch with such a tree, subscribe_on(CurrentThreadScheduler)), subscribed without a scheduler from inside a "
+    "CurrentThreadScheduler action so that the whole run happens on the trampoline and subscribe() returns its handle "
+    "first; dispose points = inside the probe's k-th callback for every k (incl. the terminal callback, i.e. the "
+    "release done by take/first); same clauses (a)-(e); a work item that a run loop already active at dispose starts "
+    "later is never a 'tail'. Non-trivial there: the callback was an on_next and something followed it in the "
+    "undisturbed run ('cut'). "
     "Non-trivial run: at the moment of dispose the top probe had no terminal and >=1 pipeline-opened source "
     "subscription was open; a case is non-trivial if it has such a run. Distinct = distinct case JSON. Classes count "
     "runs (labels run:<position>:<kind>[+exemption...]) as well as cases."
@@ -153,7 +166,7 @@ def judge(case, variant, lab, p, pc, G):
     cont_used = set()
     S = None  # subscribe_on: "un-subscriptions happen on the specified scheduler" - upstream of it the release is
     for i_, (n_, _a) in enumerate(pc["ops"]):  # a scheduled action of the same virtual instant, not synchronous
-        if n_ == "subscribe_on":
+        if n_.startswith("subscribe_on"):
             S = i_
 
     def continuation(key, seq, strict=False):
@@ -353,12 +366,181 @@ def _factory_cases():
     )
 
 
+# ---------------------------------------------------------------------------------------
+# 'a single thread': everything on the CurrentThreadScheduler trampoline, no scheduler argument anywhere
+
+
+TRAMP_OPS = ["map", "filter", "take", "take", "first", "take_while", "skip", "scan", "start_with", "distinct", "ignore_elements", "to_list",
+             "do_action", "finally_action", "share", "repeat", "retry", "map_indexed", "default_if_empty", "pairwise", "take_last", "skip_last"]
+
+
+def _tramp_source(lab, B, node, slotp, owner):
+    """Build a synchronous library source (no scheduler argument) with logged user code. node is JSON."""
+    k = node[0]
+
+    def fn(name, f):
+        return lab.fn(f"{slotp}.{name}", f) if not hasattr(lab, "note_event") else _hook(lab, lab.fn(f"{slotp}.{name}", f))
+
+    def sub(n):
+        return _tramp_source(lab, B, n, slotp, owner)
+
+    if k == "of":
+        return reactivex.of(*[val(v) for v in node[1]])
+    if k == "from_iterable":
+        pull = fn("from_iterable.next", lambda i: None)
+
+        def gen():
+            for i, v in enumerate(node[1]):
+                pull(i)
+                yield val(v)
+
+        return reactivex.defer(lambda sch: reactivex.from_iterable(gen()))
+    if k == "from_callable":
+        return reactivex.from_callable(fn("from_callable.supplier", lambda v=node[1]: val(v)))
+    if k == "range":
+        return reactivex.range(node[1])
+    if k == "return_value":
+        return reactivex.return_value(val(node[1]))
+    if k == "empty":
+        return reactivex.empty()
+    if k == "throw":
+        return reactivex.throw(Tagged(node[1]))
+    if k == "generate":
+        n = node[1]
+        return reactivex.generate(0, fn("generate.condition", lambda i: i < n), fn("generate.iterate", lambda i: i + 1))
+    if k == "sync":  # logged harness source emitting inside subscribe(); open-ended when it has no terminal
+        return B._mk({"kind": "sync", "tl": [[0, m[0], m[1]] for m in node[1]]}, owner, True)
+    if k == "defer":
+        f = fn("defer.factory", lambda: sub(node[1]))
+        return reactivex.defer(lambda sch: f())
+    if k in ("concat", "merge", "on_error_resume_next", "catch"):
+        return getattr(reactivex, k)(*[sub(n) for n in node[1]])
+    raise AssertionError(k)
+
+
+def _hook(lab, w):
+    def hooked(*args):
+        lab.note_event(("cb", len(lab.cb_log)))
+        return w(*args)
+
+    return hooked
+
+
+def _tramp_build(lab, case):
+    B = OBuilder(lab)
+    o = _tramp_source(lab, B, case["root"], "0.root", -1)
+    for name, a in case["ops"]:
+        i = B.opi
+        if name in ("flat_map_s", "concat_map_s", "switch_map_s"):
+            B._owner, B.cur = i, name
+            nodes = a["ss"]
+            m = B.fn("mapper", lambda x, i=i, name=name: _tramp_source(lab, B, nodes[B.h(x) % len(nodes)], f"{i}.{name}", i))
+            o = {"flat_map_s": ops.flat_map, "concat_map_s": ops.concat_map, "switch_map_s": ops.switch_map}[name](m)(o)
+            B.opi += 1
+        elif name in ("merge_s", "concat_s", "on_error_resume_next_s", "catch_s"):
+            other = _tramp_source(lab, B, a["s"], f"{i}.{name}", i)
+            o = {"merge_s": ops.merge, "concat_s": ops.concat, "on_error_resume_next_s": ops.on_error_resume_next, "catch_s": ops.catch}[name](other)(o)
+            B.opi += 1
+        elif name == "subscribe_on_ct":
+            o = ops.subscribe_on(CurrentThreadScheduler.singleton())(o)
+            B.opi += 1
+        else:
+            o = B.build_op(name, a)(o)
+    return o
+
+
+def _tramp_variant(case, k):
+    lab = TLab()
+    o = _tramp_build(lab, case)
+    p = DProbe(lab, "p", inner=None, dispose_at_cb=k)
+    lab.probes.append(p)
+
+    def main(s, st_=None):
+        # subscribing from inside a trampoline action: subscribe() returns its handle before any queued work runs,
+        # which is what makes single-threaded cancellation from a callback possible
+        p.subscribe(o, scheduler=None)
+
+    try:
+        CurrentThreadScheduler.singleton().schedule(main)
+    except (RecursionError, Diverged):
+        lab.inconclusive = "recursion"
+    except SpinGuard:
+        lab.inconclusive = "spin"
+    except BudgetExceeded:
+        lab.inconclusive = "budget"
+    except Exception as e:  # noqa
+        lab.escaped = e
+    return lab, p
+
+
+def _run_tramp(case):
+    lab0, p0 = _tramp_variant(case, None)
+    if lab0.inconclusive:
+        return SKIP(lab0.inconclusive)
+    if lab0.escaped is not None:
+        return SKIP("escaped:" + type(lab0.escaped).__name__)
+    pc = {"root": {"f": "root", "srcs": []}, "ops": case["ops"]}
+    last_seq = lab0.seq
+    cls = []
+    nt = False
+    ks = [case["only"][1]] if case.get("only") else range(min(len(p0.events), MAX_CB))
+    for k in ks:
+        lab, p = _tramp_variant(case, k)
+        label, failure = judge(case, ["cb", k], lab, p, pc, None)
+        if label.split("+")[0] in ("nt", "no-open-source") and p0.events[k][3] < last_seq - 1 and p0.events[k][1] == "N":
+            # something (a notification, a callback, a subscription) followed this callback in the undisturbed run
+            label = "cut" + label[len(label.split("+")[0]):]
+            nt = True
+            cls.append("runs-nontrivial")
+        cls.append(f"run:cb:{label}")
+        cls.append("runs")
+        if failure is not None:
+            return FAIL(failure[0], failure[1], classes=cls)
+    cls.append("case:nontrivial" if nt else "case:trivial")
+    return OK(nt, cls)
+
+
+def _tramp_cases(max_depth=2, max_ops=3):
+    v = st.sampled_from(["i1", "i2", "i3", "sa", "none", "i0"])
+    vs = st.lists(v, min_size=0, max_size=3)
+    leaf = st.one_of(
+        vs.map(lambda x: ["of", x]),
+        vs.map(lambda x: ["from_iterable", x]),
+        v.map(lambda x: ["from_callable", x]),
+        v.map(lambda x: ["from_callable", x]),
+        st.integers(0, 3).map(lambda n: ["range", n]),
+        v.map(lambda x: ["return_value", x]),
+        st.just(["empty"]),
+        st.sampled_from(["e1", "e2"]).map(lambda t: ["throw", t]),
+        st.integers(0, 3).map(lambda n: ["generate", n]),
+        st.lists(st.one_of(v.map(lambda x: ["N", x]), ), max_size=2).flatmap(
+            lambda ns: st.sampled_from([[], [["C", None]], [["E", "e3"]]]).map(lambda t: ["sync", ns + t])
+        ),
+    )
+    node = st.recursive(
+        leaf,
+        lambda ch: st.one_of(
+            ch.map(lambda n: ["defer", n]),
+            st.tuples(st.sampled_from(["concat", "merge", "merge", "on_error_resume_next", "catch"]), st.lists(ch, min_size=1, max_size=3)).map(list),
+        ),
+        max_leaves=5,
+    )
+    plain = st.sampled_from(TRAMP_OPS).flatmap(lambda n: st.tuples(st.just(n), OPS[n].args).map(list))
+    special = st.one_of(
+        st.tuples(st.sampled_from(["flat_map_s", "flat_map_s", "concat_map_s", "switch_map_s"]), st.lists(node, min_size=1, max_size=2).map(lambda ss: {"ss": ss})).map(list),
+        st.tuples(st.sampled_from(["merge_s", "concat_s", "on_error_resume_next_s", "catch_s"]), node.map(lambda s: {"s": s})).map(list),
+        st.just(["subscribe_on_ct", {}]),
+    )
+    return st.fixed_dictionaries({"root": node, "ops": st.lists(st.one_of(plain, special), max_size=max_ops)})
+
+
 def checks(tier):
     q = tier == "quick"
     return [
-        Check("pipelines", _run, strategy=cases(4 if q else 6), examples={"quick": 320, "thorough": 16 * 2000}, shards={"quick": 8, "thorough": 16}),
-        Check("inners", _run, strategy=cases_inner(4 if q else 6), examples={"quick": 320, "thorough": 16 * 2000}, shards={"quick": 8, "thorough": 16}),
-        Check("enders", _run, strategy=cases_forced(3 if q else 5), examples={"quick": 200, "thorough": 16 * 1000}, shards={"quick": 8, "thorough": 16}),
-        Check("gbu_self", _run_gbu, strategy=cases_gbu(), examples={"quick": 120, "thorough": 16 * 1000}, shards={"quick": 8, "thorough": 16}),
-        Check("factories", _run_factories, strategy=_factory_cases(), examples={"quick": 200, "thorough": 16 * 1000}, shards={"quick": 8, "thorough": 16}),
+        Check("pipelines", _run, strategy=cases(4 if q else 6), examples={"quick": 320, "thorough": 16 * 1500}, shards={"quick": 8, "thorough": 16}),
+        Check("inners", _run, strategy=cases_inner(4 if q else 6), examples={"quick": 320, "thorough": 16 * 1500}, shards={"quick": 8, "thorough": 16}),
+        Check("enders", _run, strategy=cases_forced(3 if q else 5), examples={"quick": 200, "thorough": 16 * 750}, shards={"quick": 8, "thorough": 16}),
+        Check("gbu_self", _run_gbu, strategy=cases_gbu(), examples={"quick": 120, "thorough": 16 * 750}, shards={"quick": 8, "thorough": 16}),
+        Check("trampoline", _run_tramp, strategy=_tramp_cases(2, 3 if q else 5), examples={"quick": 1200, "thorough": 16 * 3000}, shards={"quick": 8, "thorough": 16}),
+        Check("factories", _run_factories, strategy=_factory_cases(), examples={"quick": 200, "thorough": 16 * 750}, shards={"quick": 8, "thorough": 16}),
     ]
